@@ -251,6 +251,19 @@ def check_case(case):
         cnt["variants_run"] += 1
         results[mode] = vals
     nontrivial = False
+    # independent line: the harness's own interpreter evaluates the literal rendering (its own pi/tau/rgas, CRC-32,
+    # STR packing, arithmetic kernel) - catches a wrong named constant or hash that all variants would share
+    if "literal" in srcs:
+        ref = H.run_ref(srcs["literal"], "c03", (), max_steps=5000, max_effects=40)
+        if ref["status"] != "not-judged":
+            vals = {}
+            for e in ref["effects"]:
+                if e[0] == "s" and e[1] == "db":
+                    vals.setdefault(e[2], e[3])
+            results["interpreter"] = vals
+            codes["interpreter"] = "(reference interpreter on the literal rendering)"
+            srcs["interpreter"] = srcs["literal"]
+            cnt["interpreter_runs"] = 1
     if "stack" in results:
         ref = results["stack"]
         for mode, vals in results.items():
@@ -273,7 +286,7 @@ def check_case(case):
                     ex = exprs[k] if k is not None and k < len(exprs) else None
                     vio.append(dict(signature=dict(monitor="fold-differential", event="value-differs", variant=mode), triggers=triggers_of(srcs[mode]) + triggers_of(srcs["stack"]), detail=dict(expression=ex, value_in_variant=v, value_at_run_time=w, variant_code=codes[mode][:600], stack_code=codes["stack"][:800])))
             missing = set(ref) - set(vals)
-            if missing and mode in ("literal", "vars", "mixed"):
+            if missing and mode in ("literal", "vars", "mixed", "interpreter"):
                 vio.append(dict(signature=dict(monitor="fold-differential", event="write-missing", variant=mode), triggers=triggers_of(srcs[mode]), detail=dict(cells=sorted(missing), variant_code=codes[mode][:600])))
     res = dict(verdict="violated" if vio else ("held" if len(results) >= 2 else "skip"), counters=cnt, violations=vio, features=[case.get("stream", "?")])
     if nontrivial:
